@@ -16,7 +16,7 @@ EXPLANATION = ('Well-formedness of the produced text is the job of rapidjson / p
                'R8.4 the stream renderers receive the configured encoding and BOM flag: AutoUTFOutputStream(stream, ToRapidUtfType(encoding), writeBom); '
                'xml_document::save(stream, indent, flags, ToPugiUtfType(encoding)) with format_write_bom iff writeBom. '
                'R8.5 formatting: pretty writer / format_indent iff enableFormat, indent built from paddingChar x paddingCharNum. '
-               'R8.6 XML input is parsed with the declared/auto-detected encoding for streams and as UTF-8 for strings. '
+               'R8.6 XML input is parsed with the declared/auto-detected encoding for streams and as UTF-8 for strings. R8.7 JSON strings and keys keep their length (embedded U+0000). '
                'Not decided: equality of the recovered data model under arbitrary re-renderings.')
 ASSUMPTIONS = ['rapidjson and pugixml implement their documented contracts']
 TRUSTED = ['clang 14 AST', 'bsfacts']
@@ -41,6 +41,8 @@ def run(prog, rep):
     rep.rule('R8.6', 'XML input: stream load auto-detects the encoding, string load is UTF-8', floor=2)
     json_render.check(prog, rep, 'R8.1', want=('accept',))
     json_render.check(prog, rep, 'R8.2', want=('parsestream',))
+    rep.rule('R8.7', 'JSON strings and keys travel with their length: GetString() is paired with GetStringLength(), no member lookup by key.c_str()', floor=2)
+    json_render.check(prog, rep, 'R8.7', want=('strings',))
 
     enum = prog.enums.get(ENUM)
     if enum is None:
